@@ -46,10 +46,41 @@
                                        per-chunk request: the next chunk and the next record are
                                        sent with the cancelled id (witness; intended: fresh)
   * data_requests_bounded            — at most 8 exchanges per chunk read
+  * chunk_reserve_outcomes / clear_reserve_outcomes
+                                     — reserve_fn itself may fail (the Reserve command answered node busy /
+                                       timeout / any other code; `runChunkR`, `runClearR`: a plan of outcomes for
+                                       the reserve calls, first one and renewals): same request bounds, freshness,
+                                       and the CompletionCodeError of a refused Reserve is what the helper ends
+                                       with, nothing is called after it.  `reserve_plan_empty_is_old_model`: with
+                                       an empty plan this IS the environment of the theorems above
+  * source_variant                   — the variants read from today's source ARE the intended ones (SDR reads,
+                                       send_message, the two SEL loops): a regression stops the build here
+
+  The two loops of pyipmi/sel.py (Model/SelXfer.lean, the model C12 uses) on an outcome script
+  (Model/SelScript.lean: one letter per Get / Delete SEL Entry, a letter with code 0 serves the bytes asked
+  for; the Reserve SEL requests have their own outcome list):
+
+  * sel_entry_unbounded_as_shipped   — get_sel_entry, every request answered CAh: for EVERY fuel the pinned
+                                       loop uses all of it (max_req_len FFh, 16 … 1, 0, −1 …): no bound exists
+  * sel_entry_bounded / _gives_up    — repaired: at most 33 requests whatever the outcome sequence (17 lengths
+                                       FFh, 16 … 1 and one request per byte); CAh for ever = RetryError after
+                                       exactly 17 requests
+  * sel_get_and_clear_unbounded_as_shipped — every Get answered C5h: n rounds for every n, never a result
+  * sel_get_and_clear_bounded / _gives_up  — repaired: at most 35 requests per round of the budget, whatever
+                                       the Get / Delete / Reserve outcomes; C5h for ever = RetryError after
+                                       2·budget requests
+  * sel_reserve_failure_propagates   — any peer, either variant: a Reserve SEL (first or renewal) answered with
+                                       a completion code ends the call with that CompletionCodeError, nothing
+                                       is sent after it
+  * sel_unexpected_code_propagates   — a Get SEL Entry answered with a code other than 00h / CAh ends
+                                       get_sel_entry with exactly that code (request was the last)
 -/
 import PyIpmi.Lemmas.Retry
+import PyIpmi.Lemmas.RetryReserve
 import PyIpmi.Lemmas.SdrXferFresh
+import PyIpmi.Lemmas.SelScript
 import PyIpmi.Gen.Loops11
+import PyIpmi.Gen.Loops10
 namespace PyIpmi.Props.C13
 open PyIpmi PyIpmi.Model.Retry
 
@@ -355,5 +386,182 @@ example : (getSdrData K xconsts Variant.intended (traced scriptX) .repo
       (⟨⟨[.completed], .resCancelled⟩, 0, [recP]⟩, []) 1 none).1.2.length = 10 := by decide
 
 end sdr
+
+/-! ### reserve_fn can fail: node busy / timeout / any other error on the Reserve request itself -/
+
+/-- get_sdr_chunk_helper, reserve outcomes scripted too (`rp`: outcome of the 1st, 2nd … renewal):
+for ALL scripts, plans and budgets the bound and the freshness of `chunk_bounded` /
+`fresh_reservation_chunk` still hold, and a refused renewal ends the helper with exactly that
+CompletionCodeError - the refused Reserve is the last call it made. -/
+theorem chunk_reserve_outcomes (b res : Nat) (s : Script) (rp : List Letter) :
+    (runChunkR K b res s rp).1.env.trace.length ≤ 2 * (b - 1) ∧
+    Fresh res (runChunkR K b res s rp).1.env.trace ∧
+    ∀ c, Ev.reserveFailed c ∈ (runChunkR K b res s rp).1.env.trace →
+      (runChunkR K b res s rp).2 = .ccError c ∧
+      (runChunkR K b res s rp).1.env.trace.getLast? = some (.reserveFailed c) :=
+  runChunkR_spec K b res s rp
+
+/-- clear_repository_helper: the helper's own first Reserve (no caller reservation) and the renewals of
+both phases may be refused: at most 4·(b−1)+1 calls, every clear request carries the most recent
+reservation, a refused Reserve is propagated and nothing is called after it. -/
+theorem clear_reserve_outcomes (b : Nat) (reservation : Option Nat) (s : Script) (rp : List Letter) :
+    (runClearR K b reservation s rp).1.env.trace.length ≤ 4 * (b - 1) + 1 ∧
+    Fresh (reservation.getD 0) (runClearR K b reservation s rp).1.env.trace ∧
+    ∀ c, Ev.reserveFailed c ∈ (runClearR K b reservation s rp).1.env.trace →
+      (runClearR K b reservation s rp).2 = .ccError c ∧
+      (runClearR K b reservation s rp).1.env.trace.getLast? = some (.reserveFailed c) :=
+  runClearR_spec K b reservation s rp
+
+/-- with no failure planned the environment is the one of `chunk_bounded` … above -/
+theorem reserve_plan_empty_is_old_model (b res : Nat) (s : Script) :
+    (runChunkR K b res s []).1.env = (runChunk K b res s).1 ∧ (runChunkR K b res s []).2 = (runChunk K b res s).2 :=
+  runChunkR_nil K b res s
+
+/-- first Reserve of the clear helper answered node busy: nothing else is sent -/
+example : (runClearR K 5 none ⟨[], .completed⟩ [.nodeBusy]).1.env.trace = [.reserveFailed 0xC0] ∧
+    (runClearR K 5 none ⟨[], .completed⟩ [.nodeBusy]).2 = .ccError 0xC0 := by decide
+
+/-- the renewal in the poll phase times out: CompletionCodeError(C3h) after initiate, poll, Reserve -/
+example : (runClearR K 5 (some 7) ⟨[.completed, .resCancelled], .completed⟩ [.timeout]).1.env.trace =
+      [.clear 0xAA 7 .completed, .clear 0 7 .resCancelled, .reserveFailed 0xC3] ∧
+    (runClearR K 5 (some 7) ⟨[.completed, .resCancelled], .completed⟩ [.timeout]).2 = .ccError 0xC3 := by decide
+
+/-- chunk helper: first renewal granted, second refused with D3h -/
+example : (runChunkR K 5 3 ⟨[.resCancelled, .resCancelled], .completed⟩ [.completed, .other 0xD3]).1.env.trace =
+      [.chunk 3 .resCancelled, .reserve 4, .chunk 4 .resCancelled, .reserveFailed 0xD3] ∧
+    (runChunkR K 5 3 ⟨[.resCancelled, .resCancelled], .completed⟩ [.completed, .other 0xD3]).2 = .ccError 0xD3 := by decide
+
+/-! ### the tree is the repaired one -/
+
+/-- The variants the translators read from today's source - SDR reads (CAh branch repeats the read,
+each chunk reader renews its own store, the renewed id is handed on), send_message (only node-busy
+is repeated), the SEL loops (max_req_len has a floor, get-and-clear a retry budget) - are the
+intended ones the theorems of this file are about.  A regression of any of them stops the build. -/
+theorem source_variant :
+    PyIpmi.Gen.Loops11.variantRead = PyIpmi.Model.SdrXfer.Variant.intended ∧
+    PyIpmi.Gen.Loops11.sendVariantRead = SendVariant.intended ∧
+    PyIpmi.Gen.Loops10.selVariant = PyIpmi.SelXfer.Variant.intended := by decide
+
+/-! ### the two loops of pyipmi/sel.py: get_sel_entry (record-chunk fetching by partial reads),
+get_and_clear_sel_entry (reservation loop) -/
+
+section sel
+open PyIpmi.SelXfer
+open PyIpmi.FruXfer (Send World Xchg)
+
+/-- the constants of today's pyipmi/sel.py are the ones the lemmas are made for -/
+theorem sel_constants_ok : PyIpmi.Gen.Loops10.selCfg = stdCfg := by decide
+
+/-- the scripted SEL device: one 16-byte record, outcome script `s` for Get / Delete SEL Entry, outcome
+list `rp` for the Reserve SEL requests -/
+def selDev (s : Script) (rp : List Letter) : ScriptSel :=
+  ⟨s, rp, 0, [0x01, 0x00, 0x02, 1, 2, 3, 4, 0x20, 0, 4, 1, 0x10, 0x6F, 0xA1, 0xB2, 0xC3], 0xFFFF⟩
+
+/-- **As shipped, get_sel_entry never gives up.**  Every Get SEL Entry answered CAh ("cannot return
+number of requested data bytes"): whatever fuel the model is given, ALL of it is used - `fuel`
+requests and still no result; there is no bound.  (The length asked for goes FFh, 16, 15 … 1, 0 and
+then wraps: −1 is FFh on the wire.) -/
+theorem sel_entry_unbounded_as_shipped (fuel rid res : Nat) (rp : List Letter) :
+    (entryLoop stdCfg .asShipped scriptSend fuel ⟨selDev ⟨[], .other 0xCA⟩ rp, []⟩ res rid 255 []).out
+      = .pyError "nontermination" ∧
+    (entryLoop stdCfg .asShipped scriptSend fuel ⟨selDev ⟨[], .other 0xCA⟩ rp, []⟩ res rid 255 []).w.trace.length
+      = fuel := by
+  have := entry_spins fuel ⟨selDev ⟨[], .other 0xCA⟩ rp, []⟩ res rid 255 [] rfl
+  simpa using this
+
+/-- the first 20 lengths on the wire, as shipped: FFh, 16 … 1, 0, FFh (= −1), FEh -/
+example : ((entryLoop stdCfg .asShipped scriptSend 20 ⟨selDev ⟨[], .other 0xCA⟩ [], []⟩ 5 1 255 []).w.trace.map
+      fun x => x.req.payload.getD 5 0) =
+    [0xFF, 16, 15, 14, 13, 12, 11, 10, 9, 8, 7, 6, 5, 4, 3, 2, 1, 0, 0xFF, 0xFE] := by decide
+
+/-- **Repaired, bounded for every outcome sequence**: get_sel_entry ends after at most 33 requests
+(17 request lengths FFh, 16 … 1, and at worst one request per byte of the record), never out of fuel. -/
+theorem sel_entry_bounded (s : Script) (rp : List Letter) (rid res : Nat) :
+    (runEntry stdCfg .intended (selDev s rp) rid res).out ≠ .pyError "nontermination" ∧
+    (runEntry stdCfg .intended (selDev s rp) rid res).w.trace.length ≤ 33 := by
+  have := entry_bound .intended rfl entryFuel ⟨selDev s rp, []⟩ res rid 255 [] rfl (by simp)
+    (Or.inl ⟨rfl, rfl⟩) (by decide)
+  have e33 : entryMeasure 255 [] = 33 := by decide
+  refine ⟨this.1, ?_⟩
+  have h := this.2.1
+  rw [e33] at h
+  have h' : (entryLoop stdCfg .intended scriptSend entryFuel ⟨selDev s rp, []⟩ res rid ((255 : Nat) : Int) []).w.trace.length ≤ 33 := by
+    simpa using h
+  exact h'
+
+/-- **Repaired, CAh for ever**: RetryError after exactly 17 requests. -/
+theorem sel_entry_gives_up (rp : List Letter) (rid res : Nat) :
+    (runEntry stdCfg .intended (selDev ⟨[], .other 0xCA⟩ rp) rid res).out = .retryError ∧
+    (runEntry stdCfg .intended (selDev ⟨[], .other 0xCA⟩ rp) rid res).w.trace.length = 17 := by
+  have := entry_gives_up .intended rfl ⟨selDev ⟨[], .other 0xCA⟩ rp, []⟩ rid res rfl
+  simpa [runEntry] using this
+
+/-- a device that serves one byte at a time is still read: FFh, 16 … 2 refused, then 16 × 1 byte -/
+example : (runEntry stdCfg .intended (selDev ⟨List.replicate 16 (.other 0xCA), .completed⟩ []) 1 7).out =
+      .ok ((selDev ⟨[], .completed⟩ []).entry, 0xFFFF) ∧
+    (runEntry stdCfg .intended (selDev ⟨List.replicate 16 (.other 0xCA), .completed⟩ []) 1 7).w.trace.length = 32 := by
+  decide
+
+/-- **As shipped, get_and_clear_sel_entry never gives up.**  Every Get SEL Entry answered C5h
+("reservation cancelled"): n complete rounds - Reserve SEL, Get SEL Entry - for every n, and no result. -/
+theorem sel_get_and_clear_unbounded_as_shipped (n rid : Nat) :
+    (runGac stdCfg .asShipped n (selDev ⟨[], .resCancelled⟩ []) rid).out = .pyError "nontermination" ∧
+    (runGac stdCfg .asShipped n (selDev ⟨[], .resCancelled⟩ []) rid).w.trace.length = 2 * n := by
+  have := gac_spins .asShipped n ⟨selDev ⟨[], .resCancelled⟩ [], []⟩ rid rfl rfl
+  simpa [runGac, gacExhausted, Variant.asShipped] using this
+
+/-- **Repaired, bounded for every outcome sequence** of Get / Delete SEL Entry and of Reserve SEL,
+every budget: at most 35 requests per round (Reserve, ≤ 33 Get, Delete), never out of fuel. -/
+theorem sel_get_and_clear_bounded (s : Script) (rp : List Letter) (retry rid : Nat) :
+    (runGac stdCfg .intended retry (selDev s rp) rid).out ≠ .pyError "nontermination" ∧
+    (runGac stdCfg .intended retry (selDev s rp) rid).w.trace.length ≤ 35 * retry := by
+  have := gac_bound .intended rfl rfl retry ⟨selDev s rp, []⟩ rid rfl
+  simpa [runGac] using this
+
+/-- **Repaired, C5h for ever**: RetryError after `retry` rounds = 2·retry requests. -/
+theorem sel_get_and_clear_gives_up (retry rid : Nat) :
+    (runGac stdCfg .intended retry (selDev ⟨[], .resCancelled⟩ []) rid).out = .retryError ∧
+    (runGac stdCfg .intended retry (selDev ⟨[], .resCancelled⟩ []) rid).w.trace.length = 2 * retry := by
+  have := gac_spins .intended retry ⟨selDev ⟨[], .resCancelled⟩ [], []⟩ rid rfl rfl
+  simpa [runGac, gacExhausted, Variant.intended] using this
+
+/-- **Reserve SEL refused** (node busy, timeout, any other code; the first Reserve or a renewal after
+a cancellation), ANY peer, either variant: the call ends with exactly that CompletionCodeError and the
+refused Reserve is the last request it made. -/
+theorem sel_reserve_failure_propagates {σ : Type} (v : Variant) (send : Send σ) (dev : σ) (retry rid : Nat)
+    (x : Xchg) (c : Nat) (hm : x ∈ (getAndClear stdCfg v send retry ⟨dev, []⟩ rid).w.trace)
+    (hx : failedReserve x = some c) :
+    (getAndClear stdCfg v send retry ⟨dev, []⟩ rid).out = .ccError c ∧
+    (getAndClear stdCfg v send retry ⟨dev, []⟩ rid).w.trace.getLast? = some x := by
+  obtain ⟨ext, h1, h2⟩ := gac_reserve_failure stdCfg v send rid retry ⟨dev, []⟩
+  have h1' : (getAndClear stdCfg v send retry ⟨dev, []⟩ rid).w.trace = ext := by simpa using h1
+  rw [h1'] at hm ⊢
+  exact h2 x hm c hx
+
+/-- **Unexpected completion codes propagate** (ANY peer, either variant): a Get SEL Entry answered
+with a code other than 00h and CAh - timeout, node busy, response unavailable, reservation cancelled,
+any other error - ends get_sel_entry with exactly that CompletionCodeError; it was the last request. -/
+theorem sel_unexpected_code_propagates {σ : Type} (v : Variant) (send : Send σ) (dev : σ) (rid res : Nat)
+    (x : Xchg) (c : Nat) (hm : x ∈ (getSelEntry stdCfg v send ⟨dev, []⟩ rid res).w.trace)
+    (hx : refusedWith stdCfg x = some c) :
+    (getSelEntry stdCfg v send ⟨dev, []⟩ rid res).out = .ccError c ∧
+    (getSelEntry stdCfg v send ⟨dev, []⟩ rid res).w.trace.getLast? = some x := by
+  obtain ⟨ext, h1, h2⟩ := entry_code_propagates stdCfg v send res rid entryFuel ⟨dev, []⟩ (stdCfg.entire : Int) []
+  have h1' : (getSelEntry stdCfg v send ⟨dev, []⟩ rid res).w.trace = ext := by simpa [getSelEntry] using h1
+  rw [h1'] at hm ⊢
+  exact h2 x hm c hx
+
+/-- the second Reserve (the renewal after a C5h) answered node-busy: CompletionCodeError(C0h), 3 requests -/
+example : (runGac stdCfg .intended 5 (selDev ⟨[.resCancelled], .completed⟩ [.completed, .nodeBusy]) 1).out = .ccError 0xC0 ∧
+    (runGac stdCfg .intended 5 (selDev ⟨[.resCancelled], .completed⟩ [.completed, .nodeBusy]) 1).w.trace.length = 3 := by
+  decide
+
+/-- one cancellation of the read, one of the delete, then success: reserve / read / delete three times -/
+example : (runGac stdCfg .intended 5 (selDev ⟨[.resCancelled, .completed, .resCancelled], .completed⟩ []) 1).out =
+      .ok (selDev ⟨[], .completed⟩ []).entry ∧
+    ((runGac stdCfg .intended 5 (selDev ⟨[.resCancelled, .completed, .resCancelled], .completed⟩ []) 1).w.trace.map
+      fun x => x.req.cmd) = [0x42, 0x43, 0x42, 0x43, 0x46, 0x42, 0x43, 0x46] := by decide
+
+end sel
 
 end PyIpmi.Props.C13
